@@ -14,14 +14,22 @@
 //!   valid    JwtCredentialValidator / JwtPresentationValidator / SdJwtCredentialValidator over signed tokens
 //!   status   StatusList2021 (encoded lists, entries, credentials), RevocationBitmap services
 //!   sdjwt    SdJwt / Disclosure / SdObjectDecoder / KB-JWT claims, MethodDigest::unpack
-//! SD-JWT-VC (`sd_jwt_vc`) entry points are NOT covered: the feature is not enabled in this crate.
+//!   netname  NetworkName through serde / TryFrom<String> and what callers do with an accepted name
+//!   sdjwtvc  (cargo feature `sdjwtvc` only) IntegrityMetadata, type/claim/issuer metadata, SdJwtVc tokens and the
+//!            resolver-driven validators over harness-served webs of documents (chains, cycles)
+//! Without the cargo feature `sdjwtvc` (which needs `identity_credential/sd-jwt-vc`) the SD-JWT-VC entry points are
+//! NOT covered; the note `not_covered` of the report says which of the two builds ran.
+#![allow(unexpected_cfgs)]
 mod fam_core;
 mod fam_cred;
 mod fam_did;
 mod fam_docs;
 mod fam_jwk;
 mod fam_jws;
+mod fam_netname;
 mod fam_sdjwt;
+#[cfg(feature = "sdjwtvc")]
+mod fam_sdjwtvc;
 mod fam_status;
 mod fam_valid;
 mod gen;
@@ -71,6 +79,9 @@ impl In<'_> {
     }
   }
 }
+
+/// Liveness limit of an isolated probe (seconds).
+pub const ISOLATED_LIMIT_S: u64 = 120;
 
 pub struct Cx {
   pub rep: Report,
@@ -161,6 +172,101 @@ impl Cx {
     r
   }
 
+  /// One library call on a structurally self-referential input (cyclic webs of documents, recursive schema
+  /// references, ...) executed in a CHILD process (this binary with `--probe <index>`): an unbounded recursion there
+  /// overflows the stack and aborts the child only, so the shard survives, can name entry point and input class in the
+  /// signature, and goes on with the remaining probes. Outcomes: returned (held), panicked / died / did not return
+  /// within `ISOLATED_LIMIT_S` (violations), or the child could not be started (counted, not judged).
+  #[allow(dead_code)]
+  pub fn isolated(&mut self, entry: &str, class: &str, inp: In, probe: usize) {
+    self.tick(entry, inp);
+    self.rep.inc("isolated_probes");
+    self.rep.distinct("nontrivial", &format!("{}|isolated|{}", entry, class));
+    let exe = match std::env::current_exe() {
+      Ok(e) if !cfg!(miri) => e,
+      _ => {
+        self.rep.inc("isolated_unavailable");
+        return;
+      }
+    };
+    let mut cmd = std::process::Command::new(exe);
+    cmd
+      .args(["--seed", &self.args.seed.to_string(), "--tier", if self.args.thorough { "thorough" } else { "quick" }, "--shard", "0", "--nshards", "1"])
+      .args(["--scale", &self.scale.to_string(), "--probe", &probe.to_string()])
+      .stdin(std::process::Stdio::null())
+      .stdout(std::process::Stdio::piped())
+      .stderr(std::process::Stdio::piped());
+    let mut child = match cmd.spawn() {
+      Ok(c) => c,
+      Err(_) => {
+        self.rep.inc("isolated_unavailable");
+        return;
+      }
+    };
+    // liveness only: the limit is four orders of magnitude above the normal duration of a probe (milliseconds)
+    let started = std::time::Instant::now();
+    let mut hung = false;
+    loop {
+      match child.try_wait() {
+        Ok(Some(_)) => break,
+        Ok(None) if started.elapsed().as_secs() >= ISOLATED_LIMIT_S => {
+          hung = true;
+          let _ = child.kill();
+          break;
+        }
+        Ok(None) => std::thread::sleep(std::time::Duration::from_millis(2)),
+        Err(_) => break,
+      }
+    }
+    let out = match child.wait_with_output() {
+      Ok(o) => o,
+      Err(_) => {
+        self.rep.inc("isolated_unavailable");
+        return;
+      }
+    };
+    let stdout = String::from_utf8_lossy(&out.stdout).into_owned();
+    let stderr = String::from_utf8_lossy(&out.stderr).into_owned();
+    let verdict = stdout.lines().rev().find(|l| l.starts_with("PROBE-")).unwrap_or("");
+    if hung {
+      self.rep.inc("isolated_hung");
+      let sig = format!("{}-no-return:{}", entry, class);
+      self.rep.violation(&sig, &format!("{} did not return within {} s on input {}", entry, ISOLATED_LIMIT_S, inp.short()), json!({"entry": entry, "family": self.fam, "class": class, "probe": probe, "input": inp.json(), "case": self.case}));
+    } else if let Some(rest) = verdict.strip_prefix("PROBE-RETURNED ") {
+      self.rep.inc("isolated_returned");
+      self.rep.inc(if rest.starts_with("ok") { "accepted" } else { "rejected" });
+    } else if let Some(rest) = verdict.strip_prefix("PROBE-PANIC\t") {
+      let mut it = rest.splitn(3, '\t');
+      let file = it.next().unwrap_or("<unknown>").to_string();
+      let line = it.next().and_then(|l| l.parse().ok()).unwrap_or(0);
+      let msg = it.next().unwrap_or("").to_string();
+      self.on_panic(entry, inp, PanicRec { msg, file, line });
+    } else if verdict.starts_with("PROBE-SETUP-FAILED") {
+      eprintln!("HARNESS BUG: probe {} could not be set up: {}", probe, verdict);
+      std::process::exit(3);
+    } else {
+      self.rep.inc("isolated_died");
+      let kind = if stderr.contains("has overflowed its stack") || stderr.contains("stack-overflow") {
+        "stack-overflow".to_string()
+      } else if stderr.contains("memory allocation of") {
+        "alloc-failure".to_string()
+      } else {
+        use std::os::unix::process::ExitStatusExt;
+        match out.status.signal() {
+          Some(n) => format!("signal{}", n),
+          None => format!("exit{}", out.status.code().unwrap_or(-1)),
+        }
+      };
+      let sig = format!("{}-abort:{}:{}", entry, kind, class);
+      let tail: String = stderr.chars().rev().take(600).collect::<Vec<_>>().into_iter().rev().collect();
+      self.rep.violation(
+        &sig,
+        &format!("{} killed the process ({}) on input {}", entry, kind, inp.short()),
+        json!({"entry": entry, "family": self.fam, "class": class, "probe": probe, "input": inp.json(), "stderr_tail": tail, "case": self.case, "reproduce": format!("c05 --scale {} --probe {}", self.scale, probe)}),
+      );
+    }
+  }
+
   /// Accessor / formatter / serialiser applied to an accepted value.
   pub fn acc<T>(&mut self, entry: &str, inp: In, f: impl FnOnce() -> T) -> Option<T> {
     self.rep.inc("accessor_calls");
@@ -193,6 +299,16 @@ fn main() {
   let scale = args.extra_u64("scale", 1000);
   let trace_from = args.extra_u64("trace-from", u64::MAX);
   let only = args.extra.get("family").cloned();
+  if let Some(p) = args.extra.get("probe") {
+    // child side of `Cx::isolated`
+    #[cfg(feature = "sdjwtvc")]
+    fam_sdjwtvc::probe_child(p.parse().unwrap_or(usize::MAX), scale);
+    #[cfg(not(feature = "sdjwtvc"))]
+    {
+      println!("PROBE-SETUP-FAILED no probe {} in this build", p);
+      return;
+    }
+  }
   let mut cx = Cx { rep: Report::new("C05"), args: args.clone(), case: 0, trace_from, fam: "setup", gen: "setup", scale };
   cx.rep.rule(
     "case = one (entry point, input) execution under the panic monitor; inputs come from directed hostile lists, \
@@ -202,11 +318,15 @@ fn main() {
   );
   let world = world::World::new();
   cx.rep.note("seed_corpus", json!({"json": world.seeds.json.len(), "jws": world.seeds.jws.len(), "dids": world.seeds.dids.len()}));
-  cx.rep.note("not_covered", json!("sd_jwt_vc entry points (feature sd-jwt-vc not enabled in the harness crate); jpt/BBS+ validators (feature jpt-bbs-plus not enabled)"));
+  #[cfg(not(feature = "sdjwtvc"))]
+  cx.rep.note("not_covered", json!("sd_jwt_vc entry points (harness built without its cargo feature sdjwtvc); jpt/BBS+ validators (feature jpt-bbs-plus not enabled)"));
+  #[cfg(feature = "sdjwtvc")]
+  cx.rep.note("not_covered", json!("jpt/BBS+ validators (feature jpt-bbs-plus not enabled)"));
 
   type Fam = fn(&mut Cx, &world::World, &mut Rng, u64);
   // (name, stream, quick budget, thorough budget, floor per shard) — budgets count generated inputs, not calls
-  let fams: [(&'static str, Fam, u64, u64, u64); 9] = [
+  #[allow(unused_mut)]
+  let mut fams: Vec<(&'static str, Fam, u64, u64, u64)> = vec![
     ("did", fam_did::run, 60_000, 1_500_000, 40),
     ("core", fam_core::run, 40_000, 1_000_000, 40),
     ("jwk", fam_jwk::run, 40_000, 1_000_000, 40),
@@ -216,7 +336,11 @@ fn main() {
     ("valid", fam_valid::run, 16_000, 400_000, 30),
     ("status", fam_status::run, 16_000, 300_000, 30),
     ("sdjwt", fam_sdjwt::run, 30_000, 800_000, 30),
+    ("netname", fam_netname::run, 4_000, 100_000, 20),
   ];
+  // last: its final part (cyclic webs of documents) may not return at all on a defective library
+  #[cfg(feature = "sdjwtvc")]
+  fams.push(("sdjwtvc", fam_sdjwtvc::run, 24_000, 600_000, 30));
   for (i, (name, f, q, t, floor)) in fams.iter().enumerate() {
     if let Some(o) = &only {
       if o != name {
